@@ -18,6 +18,7 @@ THEOREMS = ['Fsic.C10.' + n for n in [
     'no_shadow_step', 'no_shadow_history', 'access_paths_agree_attribute',
     'access_paths_agree_label_write',
     'access_paths_agree_pos_write', 'access_paths_agree_whole_write', 'access_paths_agree_slice_write',
+    'write_touches_only_target',
     'alias_resolves_names_only', 'alias_label_passthrough', 'alias_label_get', 'alias_label_set',
     'alias_missing_label_keyerror', 'alias_paths_agree']]
 RULE = ('every span of each type up to the length bound (ranges with non-zero origin and step, lists and tuples of '
@@ -51,7 +52,7 @@ ASSUMPTIONS = ['labels identify periods: the oracle speaks about spans whose lab
                'step > 0; spans of length >= 1 for open-ended slices']
 
 META = {
-    "text": "Theorems over the container model M6, for every well-formed store, span, label and slice: Python slice semantics for all bounds and positive steps (pySlice_spec, clamp_spec); a label is located at its first occurrence / at its unique occurrence for NumPy spans and a label not in the span is missing (locate_*); obj[name, label] reads and writes exactly the element at the label's position, nothing else changes (label_get, label_set, label_set_frame); obj[name, a:b:s] addresses pos(a), pos(a)+s, ... up to and including pos(b), nothing if pos(a) > pos(b), open ends = span ends for distinct labels (label_slice_*); a missing label raises KeyError on reads and writes, single or slice end, and leaves the store unchanged (missing_label_keyerror); a value written through label, position, name key / attribute or label slice is read back through each of the others (access_paths_agree_*); what an access addresses depends on the span alone and is unchanged by every history of operations (access_depends_only_on_span, access_unchanged_by_history); through an alias-enabled class (AliasMixin, model M8's resolve composed with M6) the alias is resolved in the name position only and the label or label slice is passed through unchanged, also when it is spelled like an alias or a variable (alias_*). The attribute path is proved when no attribute-list entry carries the variable's name: as shipped, add_variable accepts the name of an existing ad-hoc attribute and obj.name then returns the stale attribute (negation proved at a witness for the shipped configuration, reproduced on the real code, open known finding); for a configuration in which add_variable also checks the attribute list (a reflected switch, probed on every run) that situation is unreachable (no_shadow_step / no_shadow_history) and the attribute path agrees at full strength (access_paths_agree_attribute). pandas get_loc is an input of the model (partial). The model is tied to the code by exhaustive enumeration of spans x labels x slice triples x get/set on all span types, compared after every operation.",
+    "text": "Theorems over the container model M6, for every well-formed store, span, label and slice: Python slice semantics for all bounds and positive steps (pySlice_spec, clamp_spec); a label is located at its first occurrence / at its unique occurrence for NumPy spans and a label not in the span is missing (locate_*); obj[name, label] reads and writes exactly the element at the label's position, nothing else changes (label_get, label_set, label_set_frame); obj[name, a:b:s] addresses pos(a), pos(a)+s, ... up to and including pos(b), nothing if pos(a) > pos(b), open ends = span ends for distinct labels (label_slice_*); a missing label raises KeyError on reads and writes, single or slice end, and leaves the store unchanged (missing_label_keyerror); a value written through label, position, name key / attribute or label slice is read back through each of the others (access_paths_agree_*); what an access addresses depends on the span alone and is unchanged by every history of operations (access_depends_only_on_span, access_unchanged_by_history); a write to one variable leaves every other variable's every cell unchanged, for every store, operand and single-variable assignment — whole-series assignment stores values, variables never share storage (write_touches_only_target); through an alias-enabled class (AliasMixin, model M8's resolve composed with M6) the alias is resolved in the name position only and the label or label slice is passed through unchanged, also when it is spelled like an alias or a variable (alias_*). The attribute path is proved when no attribute-list entry carries the variable's name: as shipped, add_variable accepts the name of an existing ad-hoc attribute and obj.name then returns the stale attribute (negation proved at a witness for the shipped configuration, reproduced on the real code, open known finding); for a configuration in which add_variable also checks the attribute list (a reflected switch, probed on every run) that situation is unreachable (no_shadow_step / no_shadow_history) and the attribute path agrees at full strength (access_paths_agree_attribute). pandas get_loc is an input of the model (partial). The model is tied to the code by exhaustive enumeration of spans x labels x slice triples x get/set on all span types, compared after every operation.",
     "design_ref": "DESIGN.md §5 M6, §6 C10",
     "note": "Partial: pandas' get_loc is not modelled — its recorded answers are inputs. Trusted: Lean kernel; axioms propext/Classical.choice/Quot.sound; the correspondence harness; Python ==/hash for label identity; NumPy basic slicing. The oracle assumes pairwise distinct labels. Attribute-path agreement is claimed only outside the known finding (variable created with the name of an existing attribute).",
     "technique": "Lean 4 proof (slice arithmetic, first-occurrence search, get-after-set lemmas) + exhaustive differential correspondence check"
